@@ -155,6 +155,7 @@ class Sim:
         self.taint = {"folder_moved_or_removed": False, "external_change": False, "create_without_write": False,
                       "file_moved_to_ignored_name": False}
         self.copies = 0
+        self.graves = []  # paths removed through rope: ("f", path) | ("d", path, [module stems that were inside])
 
     # -- helpers ------------------------------------------------------------
     def _stamp_all(self):
@@ -527,6 +528,11 @@ class Sim:
             elif a == "c_remove":
                 if st["p"] not in t or self._pending_under(st["p"]):
                     return "skip"
+                if isdir(st["p"]):
+                    self.graves.append(["d", st["p"], sorted(q[len(st["p"]) + 1:-3] for q in t if q.startswith(st["p"] + "/")
+                                                              and q.endswith(".py") and "/" not in q[len(st["p"]) + 1:] and not q.endswith("__init__.py"))])
+                elif st["p"].endswith(".py") and not st["p"].endswith("__init__.py"):
+                    self.graves.append(["f", st["p"]])
                 if isdir(st["p"]):
                     self.taint["folder_moved_or_removed"] = True
                 elif not st["p"].endswith(".py"):
@@ -916,6 +922,22 @@ class CoherenceEngine(Engine):
             n = rng.randint(1, 3)
             return "".join(rng.choice(pool) for _ in range(n))
 
+        if actor == "client" and sim.graves and rng.random() < 0.3:
+            # a path that was vacated through rope is occupied again - by a new, not yet written module,
+            # by another module renamed to that name, or by a new package of the removed one's name
+            g = rng.choice(sim.graves)
+            par = lambda q: q.rsplit("/", 1)[0] if "/" in q else ""  # noqa: E731
+            if g[0] == "f" and g[1] not in t and (par(g[1]) == "" or par(g[1]) in t):
+                others = [q for q in pyfiles if not q.endswith("__init__.py") and q != g[1]]
+                if others and rng.random() < 0.5:
+                    return {"a": "c_rename_file", "p": rng.choice(others), "q": g[1], "dt": dt}
+                return {"a": "c_create_module", "dir": par(g[1]), "name": g[1].rsplit("/", 1)[-1][:-3], "text": None, "dt": dt}
+            if g[0] == "d" and g[1] not in t and (par(g[1]) == "" or par(g[1]) in t):
+                return {"a": "c_create_package", "dir": par(g[1]), "name": g[1].rsplit("/", 1)[-1], "dt": dt}
+            if g[0] == "d" and g[1] in t and g[2]:
+                missing = [m for m in g[2] if g[1] + "/" + m + ".py" not in t]
+                if missing:
+                    return {"a": "c_create_module", "dir": g[1], "name": rng.choice(missing), "text": None, "dt": dt}
         if actor == "client" and "scripts/tool.txt" in t and rng.random() < 0.1:
             return {"a": "c_rename_file", "p": "scripts/tool.txt", "q": "scripts/tool.py", "dt": dt}
         if actor == "client":
